@@ -52,7 +52,31 @@ ArrProg(sw) == <<Make(1, "x", Fresh(104, 101)), Make(8, "a", Arr(<<Fresh(97, 49)
                  Def(2, "swap", <<>>, <<[k |-> "seti", id |-> 3, n |-> "a", site |-> 0, is |-> <<Num(0)>>, e |-> Fresh(119, 49)],
                                         Make(4, "t", Fresh(122, 122)), Ret(5, Num(IF sw = "one" THEN 0 ELSE 1))>>),
                  Shout(10, Bin("add", Idx(Var("a"), Num(0)), Idx(Var("a"), G("swap", <<>>)))), Shout(11, Var("a"))>>
+\* RETDERIVED(how, recv, use): a function RETURNS DIRECTLY a string derived from an owned (computed) string it holds - a piece
+\* of split(), a slice, a trimmed / upper-cased / replaced copy, an element popped from an array of computed strings - and the
+\* caller combines the results of two calls (the second call re-uses the first call's frame) or keeps one across other work.
+Line == Bin("add", StrL(<<108, 97, 44, 97, 98>> \o LongTail), StrL(<<44, 99, 100>>))       \* "la,ab" add ",cd" : computed "la,ab,cd"
+Derived(how, r) ==
+  CASE how = "split" -> Idx(M(r, "split", <<StrL(<<44>>)>>), Var("n"))
+    [] how = "slice" -> M(r, "slice", <<Var("n"), Num(4)>>)
+    [] how = "trim" -> M(r, "trim", <<>>)
+    [] how = "upper" -> M(r, "to_uppercase", <<>>)
+    [] how = "replace" -> M(r, "replace", <<StrL(<<97>>), StrL(<<122, 122>>)>>)
+    [] how = "pop" -> M(M(r, "split", <<StrL(<<44>>)>>), "pop", <<>>)
+    [] how = "interp" -> [k |-> "str", segs |-> <<[k |-> "lit", v |-> <<60>>], [k |-> "var", n |-> "line", site |-> 0], [k |-> "lit", v |-> <<62>>]>>]
+RetDerived(how, recv, use) ==
+  LET r == Var("line")
+      pick == CASE recv = "local" -> Def(2, "pick", <<"n">>, <<Make(3, "line", Line), Ret(4, Derived(how, r))>>)
+                [] recv = "param" -> Def(2, "pick", <<"n", "line">>, <<Ret(4, Derived(how, r))>>)
+                [] recv = "loop" -> Def(2, "pick", <<"n">>, <<Make(3, "line", Line), Make(5, "i", Num(0)),
+                                      [k |-> "loop", id |-> 6, c |-> Bin("lt", Var("i"), Num(1)), b |-> <<Ret(4, Derived(how, r))>>], Ret(7, StrL(<<>>))>>)
+      call(n) == IF recv = "param" THEN G("pick", <<Num(n), Line>>) ELSE G("pick", <<Num(n)>>)
+  IN <<pick>> \o
+     (CASE use = "concat" -> <<Shout(10, Bin("add", call(0), call(1)))>>
+        [] use = "keep" -> <<Make(10, "a", call(0)), Make(11, "b", call(1)), Make(12, "t", Fresh(113, 114)), Shout(13, Var("a")), Shout(14, Var("b"))>>
+        [] use = "array" -> <<Make(10, "a", [k |-> "arr", es |-> <<call(0), call(1)>>]), Make(12, "t", Fresh(113, 114)), Shout(13, Var("a"))>>)
 Programs == {Prog(u, sw) : u \in Uses, sw \in Swaps} \cup {ArrProg(sw) : sw \in {"one", "two"}}
+            \cup {RetDerived(h, rc, u) : h \in {"split", "slice", "trim", "upper", "replace", "pop", "interp"}, rc \in {"local", "param", "loop"}, u \in {"concat", "keep", "array"}}
 VARIABLES prog, m, fuel, hist
 vars == <<prog, m, fuel, hist>>
 Init == \E p \in Programs : prog = S!Resolve(p) /\ m = Init0(prog, NoSkip) /\ fuel = 800 /\ hist = <<>>
